@@ -661,12 +661,17 @@ func (g Gateway) GetByIndexStream(in *hydrapb.GetByIndexStreamRequest, stream hy
 	var residualFilters *hydrapb.FilterGroup
 
 	if plan.Mode != PlanModeBypass && bucketExecPreconditions(beaconType) {
-		// Bucket-routed: pull candidates from the auto-built index,
-		// then apply time-range, sort, paging, residual predicate.
+		// Bucket-routed: pull candidates from the auto-built index, keep
+		// the ones inside the beacon window (order, time range, From and
+		// Limit are decided by the beacon exactly as on the bypass route),
+		// then apply the residual predicate.
 		candidates := collectBucketCandidates(swampInterface, plan.Hints)
-		candidates = applyTimeRange(candidates, beaconType, fromTime, toTime)
-		sortCandidates(candidates, beaconType, order)
-		treasures = applyFromLimit(candidates, in.GetFrom(), in.GetLimit())
+		var err error
+		treasures, err = windowCandidates(swampInterface, candidates, beaconType, order,
+			in.GetFrom(), in.GetLimit(), fromTime, toTime)
+		if err != nil {
+			return status.Error(codes.Internal, fmt.Sprintf("hydra error: %s", err.Error()))
+		}
 		residualFilters = plan.Residual
 	} else {
 		// Bypass: legacy beacon walk, full per-row predicate.
@@ -801,9 +806,11 @@ func (g Gateway) GetByIndexStreamFromMany(in *hydrapb.GetByIndexStreamFromManyRe
 
 			if plan.Mode != PlanModeBypass && bucketExecPreconditions(beaconType) {
 				candidates := collectBucketCandidates(swampInterface, plan.Hints)
-				candidates = applyTimeRange(candidates, beaconType, fromTime, toTime)
-				sortCandidates(candidates, beaconType, order)
-				treasures = applyFromLimit(candidates, query.GetFrom(), query.GetLimit())
+				treasures, err = windowCandidates(swampInterface, candidates, beaconType, order,
+					query.GetFrom(), query.GetLimit(), fromTime, toTime)
+				if err != nil {
+					return false, status.Error(codes.Internal, fmt.Sprintf("hydra error: %s", err.Error()))
+				}
 				residualFilters = plan.Residual
 			} else {
 				treasures, err = swampInterface.GetTreasuresByBeacon(
